@@ -217,6 +217,11 @@ def t_r3(p: Project, rep: Report):
                     if ok and name == "Integer" and famname == "convert" and key == "str" and any(m_ in rtxt for m_ in ("Decimal(", "to_integral", "round(", "quantize(", "math.floor", "math.trunc", ".split(", ".partition(")):
                         rep.check("T-R3", f"{name}.{famname}[{key}]:return#{i}", False, f"{h.qualname}: a path returns {rtxt[:80]}: a text that does not denote an integer ('5.7', '12e-1') is rounded / cut to one instead of being refused - the reader accepts what is not an integer and the model holds a number the document does not", tloc(p, h.fn))
                         continue
+                    if name == "Integer" and famname == "convert" and key == "str":
+                        gates = [a_ for a_, w_ in sc.items() if any(m_ in a_ for m_ in (".isdigit()", ".isnumeric()", ".isdecimal()"))]
+                        if gates and "int(" in rtxt:
+                            rep.check("T-R3", f"{name}.{famname}[{key}]:return#{i}:sign-admitted", False, f"{h.qualname}: the text reaches int() only if `{gates[0][:40]}`: str.isdigit() is False for a leading sign, so '-1' - which the writer emits for a negative value and int() reads - is refused on the way back (and it is True for digits int() rejects, such as superscripts)", tloc(p, h.fn))
+                            continue
                     if ok and name == "Integer" and "float(" in rtxt:
                         rep.check("T-R3", f"{name}.{famname}[{key}]:return#{i}", False, f"{h.qualname}: a path returns {rtxt[:80]}: the text goes through float(), which holds 53 bits - an integer beyond 2**53 (unbounded Integer fields admit them) comes back as a neighbouring number, silently", tloc(p, h.fn))
                         continue
